@@ -2,6 +2,8 @@ package mmanagerh
 
 import (
 	"fmt"
+	"os"
+	"runtime"
 	"sort"
 	"time"
 
@@ -63,6 +65,64 @@ type Rec struct {
 func emptyState(svc string) StateRec {
 	return StateRec{Svc: svc, Mgr: "none", Leases: []int{}, Fetch: "idle", Requests: [][2]int{}, Pending: []int{},
 		Manifests: []int{}, Versions: []int{}}
+}
+
+// swallowGrace is how long a stop request may sit next to a withheld hostname answer before the answer is released.
+const swallowGrace = 2 * time.Second
+
+var stackDumps = 3
+
+// dumpStacks writes all goroutine stacks to the file named by VERIF_MM_STACKS (diagnosis of a wait that timed out:
+// a starved process shows the awaited goroutines runnable, a real deadlock shows them blocked).
+func dumpStacks(script, step int, what string) {
+	path := os.Getenv("VERIF_MM_STACKS")
+	if path == "" || stackDumps <= 0 {
+		return
+	}
+	stackDumps--
+	buf := make([]byte, 1<<20)
+	n := runtime.Stack(buf, true)
+	f, err := os.OpenFile(path, os.O_CREATE|os.O_APPEND|os.O_WRONLY, 0644)
+	if err != nil {
+		return
+	}
+	defer f.Close()
+	fmt.Fprintf(f, "=== script %d step %d: %s (%s)\n%s\n", script, step, what, time.Now().Format(time.RFC3339Nano), buf[:n])
+}
+
+// runTimer is a timeout measured in time this process was actually running: it counts ticks of a ticker, and a
+// ticker delivers at most one tick for any stretch during which the whole process (or machine) stood still. Waits on
+// the real code use it so that a stalled machine cannot be mistaken for a hung manager.
+type runTimer struct {
+	C    chan struct{}
+	stop chan struct{}
+}
+
+const runTick = 5 * time.Millisecond
+
+func newRunTimer(d time.Duration) *runTimer {
+	t := &runTimer{C: make(chan struct{}), stop: make(chan struct{})}
+	go func() {
+		tk := time.NewTicker(runTick)
+		defer tk.Stop()
+		for n := int(d / runTick); n > 0; n-- {
+			select {
+			case <-tk.C:
+			case <-t.stop:
+				return
+			}
+		}
+		close(t.C)
+	}()
+	return t
+}
+
+func (t *runTimer) Stop() {
+	select {
+	case <-t.stop:
+	default:
+		close(t.stop)
+	}
 }
 
 // hangBudget is the number of full-length waits for a missing Submit return this process still affords.
@@ -177,7 +237,7 @@ func (r *runner) await(cond func() bool) bool {
 	if cond() {
 		return true
 	}
-	t := time.NewTimer(r.stepTO)
+	t := newRunTimer(r.stepTO)
 	defer t.Stop()
 	for {
 		select {
@@ -276,7 +336,7 @@ func (r *runner) awaitFetch() bool {
 		return true
 	}
 	r.fetch = nil
-	t := time.NewTimer(r.stepTO)
+	t := newRunTimer(r.stepTO)
 	defer t.Stop()
 	for {
 		select {
@@ -301,6 +361,7 @@ func (r *runner) do(i int, s Step) (*Rec, bool) {
 	r.curReq = 0
 	e := r.e
 	fail := func(what string) (*Rec, bool) {
+		dumpStacks(r.script, i, what)
 		rec.Timeout = what
 		rec.St = r.state()
 		return rec, false
@@ -383,9 +444,11 @@ func (r *runner) do(i int, s Step) (*Rec, bool) {
 			r.fetch = nil
 			c.release <- fetchResult{version: s.Arg}
 		}
+		ht := newRunTimer(r.stepTO)
 		select {
 		case <-held:
-		case <-time.After(r.stepTO):
+			ht.Stop()
+		case <-ht.C:
 			e.hosts.disarm()
 			return fail("hostname check to hold")
 		}
@@ -394,7 +457,7 @@ func (r *runner) do(i int, s Step) (*Rec, bool) {
 		} else {
 			e.cancel()
 		}
-		done := r.await(func() bool {
+		cond := func() bool {
 			if r.seen["mgr:"+hook] == 0 {
 				return false
 			}
@@ -402,8 +465,18 @@ func (r *runner) do(i int, s Step) (*Rec, bool) {
 				return r.itersDone()
 			}
 			return r.seen["svc:shutdown"] > 0
-		})
+		}
+		// If the check does not take the stop request (a tree where the check no longer listens for it), the
+		// hostname answer is let through after a grace period: the step then completes the ordinary way and is
+		// judged as whatever it was (drift, not a hang).
+		full := r.stepTO
+		r.stepTO = swallowGrace
+		done := r.await(cond)
+		r.stepTO = full
 		e.hosts.disarm()
+		if !done {
+			done = r.await(cond)
+		}
 		if !done {
 			return fail("hook " + hook + " (stop request in the hostname check)")
 		}
@@ -455,9 +528,11 @@ func (r *runner) do(i int, s Step) (*Rec, bool) {
 			return fail("service shutdown hook")
 		}
 		e.releaseGate()
+		dt := newRunTimer(r.stepTO)
 		select {
 		case <-e.svc.Done():
-		case <-time.After(r.stepTO):
+			dt.Stop()
+		case <-dt.C:
 			return fail("service done")
 		}
 		r.svcDown = true
@@ -482,7 +557,7 @@ func (r *runner) do(i int, s Step) (*Rec, bool) {
 	e.markers++
 	mk := marker{n: e.markers}
 	_ = r.publish(mk)
-	t := time.NewTimer(r.stepTO)
+	t := newRunTimer(r.stepTO)
 wait:
 	for {
 		select {
@@ -534,7 +609,7 @@ wait:
 		// and re-examined in isolation, with full (doubled) timeouts, by the check
 		hangTO = r.hangTO / 20
 	}
-	deadline := time.NewTimer(hangTO)
+	deadline := newRunTimer(hangTO)
 	for len(want) > 0 {
 		select {
 		case ret := <-e.returns:
